@@ -50,10 +50,10 @@ func BuildRuntime() []byte {
 	patches := map[string][]int{}
 	labels := map[string]int{}
 	emit := func(b ...byte) { code = append(code, b...) }
-	jumpi := func(l string) { emit(0x60, 0xff, 0x57); patches[l] = append(patches[l], len(code)-2) }
+	jumpi := func(l string) { emit(0x61, 0xff, 0xff, 0x57); patches[l] = append(patches[l], len(code)-3) }
 	label := func(l string) { labels[l] = len(code); emit(0x5b) }
 	emit(0x60, 0x20, 0x35) // mode
-	for m, l := range []string{"", "", "sd", "cr", "cx", "crx", "ccx", "unst", "stk", "unall", "auth"} {
+	for m, l := range []string{"", "", "sd", "cr", "cx", "crx", "ccx", "unst", "stk", "unall", "auth", "fwdrv", "fwd"} {
 		if l != "" {
 			emit(0x80, 0x60, byte(m), 0x14)
 			jumpi(l)
@@ -96,24 +96,40 @@ func BuildRuntime() []byte {
 	emit(0x62, 0x00, 0xc3, 0x50)                                     // gas 50000
 	emit(0x61, 0x01, 0x00, 0x35)                                     // authorized nonce = word 8
 	emit(0xf7, 0x50, 0x00)
+	// forward CALLVALUE to target with the rest of the call data (from word 2 on) as the inner
+	// call's data, then REVERT (fwdrv) or STOP (fwd): the inner frame's effects are (not) kept
+	for _, l := range []string{"fwdrv", "fwd"} {
+		label(l)
+		emit(0x60, 0x40, 0x36, 0x03)                   // CALLDATASIZE - 0x40
+		emit(0x80, 0x60, 0x40, 0x60, 0x00, 0x37)       // DUP1; CALLDATACOPY(0, 0x40, len)
+		emit(0x60, 0x00, 0x60, 0x00)                   // retLen retOff
+		emit(0x82, 0x60, 0x00)                         // argsLen (DUP3) argsOff 0
+		emit(0x34, 0x60, 0x00, 0x35, 0x5a, 0xf1, 0x50) // CALLVALUE target GAS CALL POP
+		if l == "fwdrv" {
+			emit(0x60, 0x00, 0x60, 0x00, 0xfd)
+		} else {
+			emit(0x00)
+		}
+	}
 	for l, ps := range patches {
 		at, ok := labels[l]
-		if !ok || at > 255 {
+		if !ok || at > 0xffff {
 			panic("ledgerops: bad label " + l)
 		}
 		for _, p := range ps {
-			code[p] = byte(at)
+			code[p], code[p+1] = byte(at>>8), byte(at)
 		}
 	}
-	if len(code) > 255 {
+	if len(code) > 0xffff {
 		panic("ledgerops: runtime too long for initCode")
 	}
 	return code
 }
 
 func initCode(rt []byte) []byte {
-	// PUSH1 len PUSH1 12 PUSH1 0 CODECOPY PUSH1 len PUSH1 0 RETURN <runtime>
-	return append([]byte{0x60, byte(len(rt)), 0x60, 0x0c, 0x60, 0x00, 0x39, 0x60, byte(len(rt)), 0x60, 0x00, 0xf3}, rt...)
+	// PUSH2 len PUSH1 14 PUSH1 0 CODECOPY PUSH2 len PUSH1 0 RETURN <runtime>
+	n := len(rt)
+	return append([]byte{0x61, byte(n >> 8), byte(n), 0x60, 0x0e, 0x60, 0x00, 0x39, 0x61, byte(n >> 8), byte(n), 0x60, 0x00, 0xf3}, rt...)
 }
 
 func word(b []byte) []byte {
@@ -313,6 +329,38 @@ func (w *World) Step(tr *vutil.Trace, o AbsOp, amount string, gas string) *execd
 		w.seq++
 		fund, _ := json.Marshal(map[string]types.TransferData{callee: {Balance: "0.75"}})
 		tx2 = execdrv.NewTx(types.TransactionTypeOperatorEvent, eoa[1+(o.A)%3], "", "", string(fund), w.seq, salt+"b")
+	case "PoorFee":
+		// a fresh account is given very little (around the two fee tiers of the node: 0.0001 and,
+		// from Proposal026 on, 0.001) and then sends a transaction itself: the fee account may only
+		// gain what the sender loses
+		p := fmt.Sprintf("0x%040x", 0x7700000+w.n*1000+int(w.seq))
+		give := []string{"0.0001", "0.0005", "0.000999999999999999", "0.001", "0.0011", "0.00009"}[o.V%6]
+		fund, _ := json.Marshal(map[string]types.TransferData{p: {Balance: give}})
+		tx = execdrv.NewTx(types.TransactionTypeOperatorEvent, src, "", "", string(fund), w.seq, salt)
+		w.seq++
+		out, _ := json.Marshal(map[string]types.TransferData{w.addr[o.B]: {Balance: "0"}})
+		tx2 = execdrv.NewTx(types.TransactionTypeOperatorEvent, p, "", "", string(out), w.seq, salt+"b")
+		w.seq++
+		cd, _ := json.Marshal(types.ContractData{GasLimit: "100000", TransferValue: "0", AbiData: "0x"})
+		tx3 = execdrv.NewTx(types.TransactionTypeContract, p, w.addr[o.B], string(cd), "", w.seq, salt+"c")
+		kind = fmt.Sprintf("PoorFee.%d", o.V%6)
+	case "ResuicideRevert":
+		// in ONE block: contract B self-destructs (beneficiary: another account), its address is funded
+		// again by a plain transfer, then contract A calls it with value so that it self-destructs a
+		// second time - and A reverts. The reverted frame must give everything back.
+		callee := w.addr[o.B]
+		outer := w.addr[o.A]
+		target := w.addr[1+(o.B)%3]
+		sd := append(word(common.FromHex(target)), word([]byte{2})...)
+		tx = execdrv.NewTx(types.TransactionTypeContract, src, callee, contractData("0.25", sd, gas), "", w.seq, salt)
+		w.seq++
+		fund, _ := json.Marshal(map[string]types.TransferData{callee: {Balance: "0.75"}})
+		tx2 = execdrv.NewTx(types.TransactionTypeOperatorEvent, eoa[1+(o.A)%3], "", "", string(fund), w.seq, salt+"b")
+		w.seq++
+		mode := byte(11 + o.V%2) // 11: the outer frame reverts, 12: it does not
+		abi := append(append(word(common.FromHex(callee)), word([]byte{mode})...), sd...)
+		tx3 = execdrv.NewTx(types.TransactionTypeContract, src, outer, contractData(amount, abi, gas), "", w.seq, salt+"c")
+		kind = fmt.Sprintf("ResuicideRevert.%d", o.V%2)
 	case "StaleGas":
 		// three transactions in one block: fund a fresh account P with a little more than two flat
 		// fees; a contract creation that burns 30M gas; a contract call from P whose gas limit is
@@ -553,7 +601,7 @@ func (w *World) Step(tr *vutil.Trace, o AbsOp, amount string, gas string) *execd
 	// SelfDestruct2: the second transaction of the block destroys the contract on its own when the
 	// first one was refused (e.g. for an ill-formed amount)
 	ok2 := tx2 != nil && res.Ok(tx2.Hash)
-	if ((ok && (o.Op == "SelfDestruct" || o.Op == "SelfDestruct2" || o.Op == "SelfDestructFunded")) || (ok2 && o.Op == "SelfDestruct2")) && w.isCon[o.B] {
+	if ((ok && (o.Op == "SelfDestruct" || o.Op == "SelfDestruct2" || o.Op == "SelfDestructFunded" || o.Op == "ResuicideRevert")) || (ok2 && o.Op == "SelfDestruct2")) && w.isCon[o.B] {
 		w.isCon[o.B] = false
 		w.addr[o.B] = eoa[o.B]
 	}
